@@ -143,4 +143,41 @@ def quiet_andes():
         sh.tqdm.monitor_interval = 0
     except Exception:
         pass
+    global _WARM
+    if not _WARM:
+        _WARM = True
+        # import everything andes loads lazily, and the generated code, once in this process so that
+        # forked workers inherit it (an execution time-out must never interrupt an import)
+        import pandas  # NOQA
+        import matplotlib  # NOQA
+        import scipy.optimize  # NOQA
+        import scipy.integrate  # NOQA
+        import scipy.sparse.linalg  # NOQA
+        import scipy.linalg  # NOQA
+        import tqdm  # NOQA
+        import dill  # NOQA
+        try:
+            import openpyxl  # NOQA
+            import xlsxwriter  # NOQA
+        except ImportError:
+            pass
+        for attr in ('pd', 'tqdm', 'newton_krylov', 'fsolve', 'solve_ivp'):
+            try:
+                getattr(sh, attr).__doc__      # resolve the LazyImport proxies
+            except Exception:
+                pass
+        try:
+            ss = andes.System(no_output=True, default_config=True)
+            ss.add('Bus', dict(idx=1))
+            ss.add('Bus', dict(idx=2))
+            ss.add('Line', dict(bus1=1, bus2=2, x=0.1))
+            ss.add('Slack', dict(bus=1))
+            ss.add('PQ', dict(bus=2, p0=0.1, q0=0.01))
+            ss.setup()
+            ss.PFlow.run()
+        except Exception:
+            pass
     return andes
+
+
+_WARM = False
